@@ -3,11 +3,6 @@ import TracklibVerif.Drv.Util
 /-! Driver handler for C19. Scalars: mode `f` = IEEE bit patterns (model at `Float`), mode `q` = exact rationals
 (model at `Rat`). Commands:
 
-  sum <mode> <xs> <ys> <vals> <rx> <ry> <margin> <ops>
-      observations (x, y, value) in track order (`nan` allowed as a value), ops a word over
-      {c,s,m,M,a,d} = count, sum, min, max, avg, median
-      reply: `xmin xmax ymin ymax ncol nrow <col:line of every observation> <grids>` with grids = per operator
-      the rows joined by `;`, operators joined by `|` ; or `err:raised` when Python would raise
   cell <mode> <bx0> <bx1> <by0> <by1> <rx> <ry> <margin> <x> <y>
       the raster built on the bounding box [bx0,bx1]x[by0,by1]
       reply: `xmin xmax ymin ymax ncol nrow <col:line or none>`
@@ -50,23 +45,6 @@ def showCell : Option (Int × Int) → String
 section generic
 variable {α : Type} [Add α] [Sub α] [Mul α] [Div α] [OfNat α 0] [OfNat α 1] [OfNat α 2] [IntCast α] [NatCast α]
   [LT α] [DecidableLT α] [LE α] [DecidableLE α] [BEq α]
-
-def runSum (floor ceil : α → Int) (noData : α) (rd : String → Option α) (sh : α → String)
-    (xs ys vals rx ry margin ops : String) : String :=
-  match (splitTok xs ',').mapM rd, (splitTok ys ',').mapM rd,
-        (splitTok vals ',').mapM (fun w => if w == "nan" then some none else (rd w).map some),
-        rd rx, rd ry, rd margin, ops.toList.mapM op? with
-  | some X, some Y, some V, some rx, some ry, some mg, some O =>
-    if X.length != Y.length || X.length != V.length || X.isEmpty then "bad-request"
-    else
-      let obs := X.zip (Y.zip V)
-      match summarize floor ceil noData obs rx ry mg O with
-      | none => "err:raised"
-      | some (g, grids) =>
-        let cells := showList (fun o : α × α × Option α => showCell (getCell floor g o.1 o.2.1)) obs
-        let gs := joinWith "|" (grids.map (showListList sh))
-        s!"{sh g.xmin} {sh g.xmax} {sh g.ymin} {sh g.ymax} {g.ncol} {g.nrow} {cells} {gs}"
-  | _, _, _, _, _, _, _ => "bad-request"
 
 def runCell (floor ceil : α → Int) (rd : String → Option α) (sh : α → String) (a : List String) : String :=
   match a.mapM rd with
@@ -201,10 +179,6 @@ def handle (cmd : String) (args : List String) : String :=
   | "session", mode :: toks =>
     if mode == "f" then runSession fFloor fCeil (-99999.0 : Float) float? showFloat toks
     else if mode == "q" then runSession Rat.floor Rat.ceil (-99999 : Rat) rat? showRat toks
-    else "bad-request"
-  | "sum", [mode, xs, ys, vals, rx, ry, margin, ops] =>
-    if mode == "f" then runSum fFloor fCeil (-99999.0 : Float) float? showFloat xs ys vals rx ry margin ops
-    else if mode == "q" then runSum Rat.floor Rat.ceil (-99999 : Rat) rat? showRat xs ys vals rx ry margin ops
     else "bad-request"
   | "agg", [mode, vals, ops] =>
     if mode == "f" then runAgg float? showFloat vals ops
